@@ -111,7 +111,8 @@ CLAIMED = {
             "contain; sessions upload generated projects (all symbol categories, sparse ids, nested UDTs, strings and look-alikes) "
             "under three pagination/fragmentation schedules per project and several firmware generations; a refused symbol-list page, "
             "a structure definition larger than one reply, an empty program, and a second upload after a program download "
-            "(same template id redefined, instance ids renumbered) are part of the families; the codec built for each uploaded "
+            "(same template id redefined, instance ids renumbered; also after an upload that failed half-way), a structure larger than "
+            "64 KiB and BOOL tags at non-zero bit positions are part of the families; the codec built for each uploaded "
             "type must take exactly the structure's bytes.",
             "Trusted: as C01; external access compared only for firmware >= 18.",
             "TLA+ symbol/template object specification; recorded uploads validated against the spec", "5/C05"),
@@ -122,7 +123,10 @@ CLAIMED = {
             "replayed on the real CIPDriver, plus fault-then-reuse and seeded longer histories on CIPDriver/LogixDriver and "
             "with-blocks (R2); TraceSession guards/obligations C10:* judge every frame and return (R3).  The environment may change "
             "the target's admission policy between calls (Lifecycle!PolicyChange, Lifecycle_env.cfg; `_env` events), replies may "
-            "arrive in small TCP segments with the fault inside a frame, and SLCDriver sessions are part of the histories.",
+            "arrive in small TCP segments with the fault inside a frame, and SLCDriver sessions are part of the histories.  The target "
+            "refuses a Forward Open whose connection serial numbers equal those of a connection it still holds; when that connection "
+            "outlived a close() the re-opened driver is unusable (C10:reopen-duplicate-connection; Lifecycle_stale_triad.cfg is the "
+            "negative model in which TLC must find exactly that).",
             "Trusted: TLC, EipTarget/TraceSession as the reading of the property, the scripted socket.  At most two faults per history "
             "(Lifecycle_2f.cfg explores every pair of fault positions for 5 calls); "
             "timing is not modelled.",
@@ -141,7 +145,8 @@ CLAIMED = {
             "inject statuses into tag services (incl. mid-transfer fragments, members of multi-service packets) and truncate / "
             "corrupt / replace replies (cut stream, well-framed truncation with lengths fixed up, bit flip, encapsulation status on a "
             "complete reply, header-only error) for generic, Logix tag (single, fragmented, multi-service, read-modify-write) and "
-            "SLC calls; the corrupted reply is recomputed by the specification from the logged corruption.",
+            "SLC calls, and for the replies of the tag list upload inside open(); the corrupted reply is recomputed by the specification "
+            "from the logged corruption.",
             "Trusted: as C10; status texts are data exported from the code, the rule is the specification's; the MEANING of the general "
             "status codes is stated by the specification (EnumMap!StatusKeyword, one key word per code from CIP Vol 1 app. B), so a "
             "text filed under the wrong code is reported.",
